@@ -27,7 +27,7 @@ ASSUMPTIONS = [
 def _depth_ok(ctx, p, md, stage):
     ctx.reached()
     d = OT.depth(p)
-    ctx.require(d <= md, "depth:program-exceeds-max-depth", lambda: {"stage": stage, "max_depth": md, "depth": d, "program": repr(p)[:200]})
+    ctx.require(d <= md, "depth:program-exceeds-max-depth", lambda: {"stage": stage, "max_depth": md, "depth": d, "program": OT.show(p)})
 
 
 def h_feasible(ctx: Ctx, cfg):
